@@ -108,6 +108,9 @@ func (ctx *Context) Parse(value string) error {
 		}()
 		return p.parse(nil)
 	}()
+	if err == nil && d.codeOverflow {
+		err = errors.New("E1:指令虚拟机栈溢出，请不要发送过长的指令")
+	}
 	if err != nil {
 		ctx.Error = err
 		return err
